@@ -48,6 +48,19 @@ def gen_ops(rng, obs, nops):
             ops.append(["recompute", [] if rng.random() < 0.5 else [rng.randrange(nt)]])
         else:
             ops.append([kind])
+    # scenario tail: merge vehicles into common rotation cycles, then update several vehicles of one cycle in ONE
+    # call (improve_depots with 2-3 vehicles, end-depot reassignments), so that the one-by-one transition updates
+    # see each other's new tours
+    if rng.random() < 0.7:
+        for _ in range(rng.choice([1, 2, 3])):
+            ops.append(["recompute", []])
+            a = rng.randrange(64)
+            ops.append(["improve", [a, a + 1] if rng.random() < 0.6 else [a, a + 1, a + 2]])
+            if rng.random() < 0.5:
+                ops.append([rng.choice(["greedy_end", "consistent_end"])])
+            if rng.random() < 0.5:
+                i = rng.randrange(8)
+                ops.append([rng.choice(["fit", "override"]), rng.randrange(64), i, rng.choice([0, 1, 2]), rng.randrange(64)])
     return ops
 
 
@@ -190,7 +203,9 @@ def main(pid, tier, seed, what):
     rng = random.Random(seed * 7919 + int(pid[1:]))
     d = lib.casedir(pid)
     profiles = [None, {"slots": "some"}, {"depots": "scarce", "slots": "some"}, {"zero_shunting": True},
-                {"depots": "zero"}, {"depots": "restricted", "ntypes": 2}]
+                {"depots": "zero"}, {"depots": "restricted", "ntypes": 2},
+                {"depots": "ample", "ntypes": 1, "nlocs": 4, "slots": "some", "maxdist": "mid"},
+                {"depots": "absent", "ntypes": 1, "nlocs": 4}]
     gen = [instgen.gen_instance(rng, rng.choice(profiles)) for _ in range(n)]
     results = []
     for k, c in enumerate(lib.load_corpus_cases(pid)):
